@@ -2,6 +2,7 @@ package props
 
 import (
 	"fmt"
+	"io"
 	"regexp"
 	"sort"
 	"strings"
@@ -736,10 +737,53 @@ func c02typedefLeafref(c *core.Ctx) {
 	}
 }
 
+// a module and its submodules share one namespace of identities: a base may be named without a prefix wherever
+// in them it is defined (RFC 7950 5.1, 7.18.2)
+func c02submoduleIdentity(c *core.Ctx) {
+	files := map[string]string{
+		"a":  `module a { namespace "urn:a"; prefix a; include s; include s2; revision 2020-01-01; identity root; identity inmain { base sroot; } leaf lm { type identityref { base sroot; } } }`,
+		"s":  `submodule s { belongs-to a { prefix a; } identity subid { base root; } identity sub2 { base sroot; } leaf l { type identityref { base root; } } leaf l2 { type identityref { base a:sroot; } } }`,
+		"s2": `submodule s2 { belongs-to a { prefix a; } identity sroot; }`,
+	}
+	opener := func(name, ext string) (io.Reader, error) {
+		if y, ok := files[name]; ok {
+			return strings.NewReader(y), nil
+		}
+		return nil, nil
+	}
+	var m *meta.Module
+	var err error
+	if e := safeDo(func() error { m, err = parser.LoadModule(opener, "a"); return nil }); e != nil {
+		err = e
+	}
+	c.Evaluations++
+	c.Count("submodule_identity", "load")
+	if err != nil {
+		c.Violation(core.Replay{Kind: "property-failure", Class: "submodule-identity-load", Summary: "valid module set (identities of a module and its submodules, bases without prefix) does not load: " + err.Error(), Input: files})
+		return
+	}
+	for leaf, want := range map[string]string{"l": "subid", "l2": "inmain sub2", "lm": "inmain sub2"} {
+		var got []string
+		for _, b := range meta.Find(m, leaf).(meta.HasType).Type().Base() {
+			for _, d := range b.DerivedDirect() {
+				got = append(got, d.Ident())
+			}
+		}
+		sort.Strings(got)
+		c.Evaluations++
+		c.Distinct("subident " + leaf)
+		if g := strings.Join(got, " "); g != want {
+			c.Violation(core.Replay{Kind: "property-failure", Class: "submodule-identity", Summary: fmt.Sprintf("leaf %s: the identities derived from its base are [%s], want [%s]", leaf, g, want),
+				Input: map[string]interface{}{"files": files, "leaf": leaf}, Impl: g, Spec: want})
+		}
+	}
+}
+
 func C02(c *core.Ctx) {
 	c02numbering(c)
+	c02submoduleIdentity(c)
 	c02typedefLeafref(c)
-	c.Rule = "generated module sets (main module + submodule + imported module): typedef chains of depth 1–4 over int32/uint8/int64 (ranges), string (length, pattern), enumeration and bits (explicit, missing, zero and negative values; derived subsets), decimal64 (fraction-digits, range), boolean, identityref, leafref, unions of those, each level optionally stating default and units; typedefs at module level, in the submodule, in the imported module (prefixed) and local to a container (also shadowing a module-level name); leaves and leaf-lists of every level, with and without restrictions, default and units of their own, mandatory / min-elements 1 on a fifth of those without a default (the default of the type is then not the leaf's), at module level, in containers with local typedefs, and in a grouping used 1–3 times; for every leaf of the compiled tree the effective type read through the accessors (format, ranges, lengths, patterns, enum values, bit positions, union members, leafref path and target format, identityref bases, fraction-digits, default, units) compared with the Lean derivation; bits and enumerations written directly on leaf-lists; unions placed in a module-level typedef (member typedefs with default/units). non-trivial = leaf whose type is a typedef chain of depth ≥2 or a union; distinct by (module set, leaf); directed (c02numbering): automatic enum values and bit positions after negative, descending and extreme stated ones; (c02typedefLeafref) a typedef of a leafref with a relative path used by five leaves in different places"
+	c.Rule = "generated module sets (main module + submodule + imported module): typedef chains of depth 1–4 over int32/uint8/int64 (ranges), string (length, pattern), enumeration and bits (explicit, missing, zero and negative values; derived subsets), decimal64 (fraction-digits, range), boolean, identityref, leafref, unions of those, each level optionally stating default and units; typedefs at module level, in the submodule, in the imported module (prefixed) and local to a container (also shadowing a module-level name); leaves and leaf-lists of every level, with and without restrictions, default and units of their own, mandatory / min-elements 1 on a fifth of those without a default (the default of the type is then not the leaf's), at module level, in containers with local typedefs, and in a grouping used 1–3 times; for every leaf of the compiled tree the effective type read through the accessors (format, ranges, lengths, patterns, enum values, bit positions, union members, leafref path and target format, identityref bases, fraction-digits, default, units) compared with the Lean derivation; bits and enumerations written directly on leaf-lists; unions placed in a module-level typedef (member typedefs with default/units). non-trivial = leaf whose type is a typedef chain of depth ≥2 or a union; distinct by (module set, leaf); directed (c02numbering): automatic enum values and bit positions after negative, descending and extreme stated ones; (c02typedefLeafref) a typedef of a leafref with a relative path used by five leaves in different places; (c02submoduleIdentity) bases named without a prefix across a module and two submodules"
 	c.Assumptions = append(c.Assumptions,
 		"ranges are compared as written, level by level (their meaning for values is C05); identityref acceptance of derived identities is exercised by C05/C15",
 		"defaults are chosen inside every restriction of their chain so that every generated module set is valid")
